@@ -6,8 +6,11 @@ from props import common
 
 ID = "C08"
 LEVEL = "proof"
+LEVEL_TEXT = 'Lean 4 theorems: h*f for f<=0/NaN is zero(); for f>0, h*f equals refilling the same stream with every weight multiplied by f (all trees, all streams); (h*f)*g = h*(f*g), h*1 = h, h*2 = h+h, scaling distributes over +, the scaled result is a good state of the same base and a further fill commutes with the scaling. Tied to /repo by generated states (live and reloaded), factors {1/4,1/2,1,2,3,0,-1,nan, ints}, and continuations that fill, merge, hash and serialise the product.'
+LEVEL_NOTE = "Exact arithmetic (rounding is the declared gap); commutation with JSON round trips is covered by C04's theorems plus correspondence."
+TECHNIQUE = 'Lean 4 proof (scaling laws, refill theorem) + correspondence + oracle with continuations'
 LEAN_MODULE = "Hg.Props.C08"
-THEOREMS = []
+THEOREMS = ["Hg.C08.mul_nonpos", "Hg.C08.mul_eq_refill", "Hg.C08.scale_one", "Hg.C08.scale_scale", "Hg.C08.scale_two_eq_add_self", "Hg.C08.scale_add", "Hg.C08.good_scale", "Hg.C08.scale_fill"]
 CASES = {"quick": 300, "thorough": 10000}
 RULE = ("random tree (live or reloaded from JSON), reachable states a, b, factor from {1/4,1/2,1,2,3,0,-1,nan, ints}; "
         "h*f vs refill with scaled weights, f*h, (h*f)*g vs h*(f*g), h*1, h*2 vs h+h, distribution over +, JSON commutation, "
